@@ -112,7 +112,15 @@ pub fn run(a: &Args) {
         }
         let mut tmp = IppAttributes::new();
         for g in msg.clone().into_groups() {
-            tmp.groups_mut().push(g);
+            // rebuild every group from into_attributes() / into_value(): the consuming accessors must agree
+            let tag = g.tag();
+            let mut g2 = IppAttributeGroup::new(tag);
+            for (name, attr) in g.into_attributes() {
+                let an = attr.name().to_string();
+                let v = attr.into_value();
+                g2.attributes_mut().insert(name, IppAttribute::new(an, v));
+            }
+            tmp.groups_mut().push(g2);
         }
         let ev = json!({"ev": "attrs", "init": init_j, "adds": adds_j, "groups": groups, "groups_of": gof, "into_groups": groups_json(&tmp)});
         if samples.len() < 3 {
